@@ -208,7 +208,7 @@ func (v *VM) exec() {
 				v.stack, v.stack[baseN+int(i.A)] = v.stack[:len(v.stack)-1], v.stack[len(v.stack)-1]
 				break
 			}
-			v.stack, v.stack[baseN+int(i.A)] = v.stack[:len(v.stack)-1], v.stack[len(v.stack)-1].assign(v.stack[baseN+int(i.A)].t)
+			v.stack, v.stack[baseN+int(i.A)] = v.stack[:len(v.stack)-1], v.stack[len(v.stack)-1].reassign(v.stack[baseN+int(i.A)].t)
 
 		case codeLocalZero:
 			i := &codes[v.frame.N]
